@@ -841,6 +841,8 @@ HfeFile::read_all_sectors(const std::vector<PicTrack>& lut,
 		std::back_inserter(result));
     }
 
+  if (!sectors_per_track)
+    throw UnsupportedHfeFile("the HFE file header says the disc has no tracks");
   assert(header_.number_of_track > 0);
   assert(sectors_per_track.has_value());
   DFS::Encoding enc;
